@@ -43,7 +43,7 @@ _PURE_NODES = (
 
 
 class CompMixin:
-    def e_ListComp(self, node, env):
+    def _listcomp_filter(self, node, env):
         if self.spec:
             raise Unsupported("list comprehension in a specification")
         if len(node.generators) != 1:
